@@ -4,7 +4,7 @@
   Spec: an index `i` into a sequence of length `len` selects element `i` if `0 ≤ i < len`, element `len + i`
   if `-len ≤ i < 0`, and is out of bounds otherwise.
   Impl: (1) the run-time sequence emitted by builder.go `emitBoundsCheckedIndex` on i32 values, preceded by the
-  `castValue(index → i32)` its callers perform; (2) the compile-time check of constant indices
+  range check and narrowing of `narrowIndexToI32`; (2) the compile-time check of constant indices
   (`constArrayIndex` / `checkArrayBounds`).  Core-only.
 -/
 namespace FerretVerif.Bounds
@@ -27,8 +27,14 @@ def checked32 (idx : Int) (len : Nat) : Option Nat :=
   let adj := if idx < 0 then wrapS 32 (len + idx) else idx
   if adj < 0 ∨ adj ≥ len then none else some adj.toNat
 
-/-- what the compiled code does with an index value `i` of a source integer type: truncate to i32, then check -/
-def implIndex (i : Int) (len : Nat) : Option Nat := checked32 (wrapS 32 i) len
+/-- the behaviour before the repair of F13: truncate the index to i32, then check -/
+def implIndexTruncating (i : Int) (len : Nat) : Option Nat := checked32 (wrapS 32 i) len
+
+/-- what the compiled code does with an index value `i` of a source integer type of at most 64 bits
+    (builder.go narrowIndexToI32 + emitBoundsCheckedIndex): a value outside the i32 range panics, otherwise
+    the value is narrowed (now lossless) and checked -/
+def implIndex (i : Int) (len : Nat) : Option Nat :=
+  if i > 2147483647 ∨ i < -2147483648 then none else checked32 (wrapS 32 i) len
 
 /-- constArrayIndex / checkArrayBounds: a compile-time constant index is accepted iff it is in [-n, n) -/
 def staticIndex (i : Int) (n : Nat) : Option Nat :=
